@@ -213,3 +213,62 @@ theorem atomOfTok_itoa (v : Int) (h1 : -(2 : Int) ^ 63 ≤ v) (h2 : v < 2 ^ 63) 
       rw [hv]
 
 end ZygoVerif.Lexer
+
+namespace ZygoVerif.Lexer
+open ZygoVerif.PrintData ZygoVerif.NumLit
+
+/-! ## lexing a numeral -/
+
+theorem stepMode_builtin (s : LexCore) (r : Char) (h : s.state = .builtinOperator) : stepMode s r = stepBuiltin s r := by
+  simp only [stepMode, h]
+
+/-- `-` at the start of a value (empty buffer) opens the one-rune look-ahead -/
+theorem step_minus_start (s : LexCore) (hs : s.state = .normal) (hb : s.buffer = []) :
+    step s '-' = .ok { pushRing s '-' with state := .builtinOperator, preBuiltinRune := twoback (pushRing s '-'), prevrune := '-' } := by
+  have hst : (pushRing s '-').state = .normal := hs
+  have hbb : (pushRing s '-').buffer = [] := hb
+  rw [step_def, stepMode_normal _ _ hst]
+  simp [stepNormal, thenDump, dumpBuffer_empty _ hbb, sciPrefix, hbb, utf8Len]
+
+/-- `-` followed by a digit after a rune that can precede a signed number: a negative numeral begins -/
+theorem lex_minus_digit (T : List Token) (l d : Char) (hl : canStartSignedNumberAfter l = true) (hd : isDig d = true) :
+    Lex ⟨.normal, [], T, l⟩ ['-', d] ⟨.normal, ['-', d], T, d⟩ := by
+  apply Lex.of_feed
+  · intro s hs
+    have h1 := step_minus_start s hs.state hs.buffer
+    have htb : twoback (pushRing s '-') = l := by rw [twoback_pushRing s '-' hs.ring, hs.last]
+    let s1 : LexCore := { pushRing s '-' with state := .builtinOperator, preBuiltinRune := twoback (pushRing s '-'), prevrune := '-' }
+    have hdec : decimalRe ['-', d] = true := by simp [decimalRe, dropMinus, digThenDigU, hd]
+    have h2 : step s1 d = .ok { pushRing s1 d with state := .normal, buffer := (pushRing s1 d).buffer ++ ['-', d] } := by
+      have hst : (pushRing s1 d).state = .builtinOperator := rfl
+      rw [step_def, stepMode_builtin _ _ hst]
+      have hp : (pushRing s1 d).prevrune = '-' := rfl
+      have hpre : (pushRing s1 d).preBuiltinRune = l := htb
+      simp [stepBuiltin, hp, hpre, hl, hdec]
+    refine ⟨_, feed_two s s1 _ '-' d h1 h2, rfl, ?_, hs.tokens⟩
+    show s.buffer ++ ['-', d] = ['-', d]
+    rw [hs.buffer]; rfl
+  · simp
+
+theorem canStart_lead : ∀ l ∈ ['\x00', ' ', '(', '['], canStartSignedNumberAfter l = true := by decide
+
+/-- the printed integer is lexed as one pending atom -/
+theorem lex_itoa (v : Int) (T : List Token) (l : Char) (hl : canStartSignedNumberAfter l = true) :
+    Lex ⟨.normal, [], T, l⟩ (itoa v) ⟨.normal, itoa v, T, lastOf l (itoa v)⟩ := by
+  unfold itoa
+  split
+  · have hne := natDec_ne_nil v.natAbs
+    have hd := natDec_isDig v.natAbs
+    cases hds : natDec v.natAbs with
+    | nil => exact absurd hds hne
+    | cons d r =>
+      rw [hds] at hd
+      have h1 := lex_minus_digit T l d hl (hd d (by simp))
+      have h2 := lex_plain_run r (fun c hc => by
+        have := natDec_not_special v.natAbs c (by rw [hds]; simp [hc]); exact this) ['-', d] T d
+      have := Lex.trans h1 h2
+      simpa [lastOf] using this
+  · have := lex_plain_run (natDec v.toNat) (natDec_not_special _) [] T l
+    simpa [lastOf] using this
+
+end ZygoVerif.Lexer
